@@ -130,6 +130,7 @@ def check_matcher(chk, ix):
                            "fnmatch": lambda i, s, a, k, n: [(s, "val", _fn.fnmatchcase(a[0].lower(), a[1].lower()))]},
                 name="Matcher.evaluate concrete")
     it.int_sat = 50
+    it.fold_regex = True
     for p_ in patterns:
         for ts in tagsets:
             st = State()
